@@ -910,6 +910,12 @@ func exec(op string) vlib.Res {
 		if len(sp.timed) > 0 {
 			tags += ",timed-rrsig"
 		}
+		for _, t := range sp.timed {
+			if t.signer != 0 {
+				tags += ",foreign-signer-name"
+				break
+			}
+		}
 		if sp.ttl != 0 && sp.ttl != 3600 {
 			tags += ",other-ttl"
 		}
